@@ -269,7 +269,7 @@ def L_INH(cs=None):
 
     targets = [step('t' + x, 'or') for x in lv]
     P = asset('P', abstract=True, variables=[('vv', fld('os'))], steps=targets + s_decl(0) + [
-        step('dP', 'defense', reaches=[astep('tP')], ttc=ENABLED, tags=['hidden'], meta=MITRE),
+        step('dP', 'defense', reaches=[astep('tP')], ttc=ENABLED, tags=['hidden', 'suppress'], meta=MITRE),
         step('viaVar', 'or', reaches=[to(var('vv'), 'tO')]),
         step('toG1', 'or', reaches=[to(collect(sub('G1', collect(fld('os'), fld('ps'))), fld('os')), 'tO')]),
         step('spread', 'or', reaches=[to(trans(fld('down')), 'tP')]),      # transitive over a field declared on the abstract root
@@ -278,6 +278,7 @@ def L_INH(cs=None):
         step('dA', 'defense', reaches=[astep('tA')], ttc=DISABLED),
         step('viaVar', 'or', reaches=[to(var('vv'), 'back')], overrides=False),     # '+>' extension that itself uses a variable
         step('timed', 'and', reaches=[astep('tA')], ttc=EXPO, tags=['x', 'y']),
+        step('tP', 'or', ttc=EXPO, tags=['re']),       # names an inherited step again without reaches: leaves it untouched
     ])
     G1 = asset('G1', sup='Am', steps=s_decl(2) + [
         step('dG', 'defense', reaches=[astep('tG1')], ttc=None),
@@ -292,6 +293,7 @@ def L_INH(cs=None):
         step('gex', 'exist', requires=[fld('os2')], reaches=[astep('tG2')]),
     ])
     G3 = asset('G3', sup='G1', steps=[])        # a type without any step of its own
+    G4 = asset('G4', sup='G1', steps=[step('ex', 'exist', requires=[fld('os1')], reaches=[astep('tG1')], overrides=False)])
     Q = asset('Q', steps=[step('tQ', 'or')], category='C2')
     O = asset('O', steps=[step('tO', 'or'), step('back', 'or', reaches=[to(fld('ps'), 'tP')]),
                           step('exO', 'exist', requires=[sub('G1', fld('ps'))]),
@@ -315,10 +317,10 @@ def L_INH(cs=None):
               assoc('Tree', 'P', 'up', MANY, 'P', 'down', MANY),
               # same name, the same two types in opposite roles
               assoc('Rev', 'G1', 'ra', MANY, 'Q', 'rb', MANY), assoc('Rev', 'Q', 'rc', MANY, 'G1', 'rd', MANY)]
-    return spec([P, A, G1, G2, O, G3, Q], assocs, lang_id='verif.linh')
+    return spec([P, A, G1, G2, O, G3, Q, G4], assocs, lang_id='verif.linh')
 
 
-INH_SUP = {'P': None, 'Am': 'P', 'G1': 'Am', 'G2': 'Am', 'O': None, 'G3': 'G1', 'Q': None}
+INH_SUP = {'P': None, 'Am': 'P', 'G1': 'Am', 'G2': 'Am', 'O': None, 'G3': 'G1', 'Q': None, 'G4': 'G1'}
 
 
 def ref_fold(spec_dict, tname):
@@ -401,7 +403,9 @@ def L_TWIN():
 
 
 ILL = ['unknown super asset', 'unknown association end (left)', 'unknown association end (right)',
-       'step target missing on the static type', 'unknown field in a step expression']
+       'step target missing on the static type', 'unknown field in a step expression',
+       'unknown left end of an association no expression uses', 'unknown right end of an association no expression uses',
+       'step defined only on a sub-asset of the static target type']
 
 
 def F_ILL(k):
@@ -414,6 +418,12 @@ def F_ILL(k):
         sp['associations'][1]['rightAsset'] = 'Nope'
     elif k == 3:
         sp['assets'][4]['attackSteps'][1]['reaches']['stepExpressions'] = [to(fld('ps'), 'nosuchstep')]
-    else:
+    elif k == 4:
         sp['assets'][4]['attackSteps'][1]['reaches']['stepExpressions'] = [to(fld('nofield'), 'tP')]
+    elif k == 5:
+        sp['associations'].append(assoc('Bad', 'Nope', 'bf', MANY, 'O', 'bg', MANY))
+    elif k == 6:
+        sp['associations'].append(assoc('Bad', 'O', 'bf', MANY, 'Nope', 'bg', MANY))
+    else:
+        sp['assets'][4]['attackSteps'][1]['reaches']['stepExpressions'] = [to(fld('ps'), 'dG')]      # dG exists on G1 only, ps is typed P
     return sp
